@@ -191,3 +191,224 @@ Example C13_nonvacuous_tune :
   map (slot 2) (all_tasks 2 0 [1; 2]) = [0; 1; 2; 3; 4; 5] /\
   trial_sums [[5; 7]; [4; 6]; [6; 4]] = [12; 10; 10] /\ optimum_trial 1000 [12; 10; 10] = 1.
 Proof. vm_compute. repeat split; reflexivity. Qed.
+
+(* ================================================================================================================ *)
+(* Extension (stage SURR): the deterministic arithmetic around the quadratic surrogate (C13_Surrogate_Defs / C13_Surrogate).
+   Vocabulary:
+     fit_size d          := (d + 1) * (d + 2) / 2 as the source writes it; dim_of_size n := (int) sqrt(2 n) - 1
+     pairs d             := the (i, j) visited by `for i in [0, d) for (j = i; j < d; ++j)`; number k l := `k++` numbering
+     pair_index d i j    := d + 1 + i d - i (i - 1) / 2 + (j - i)
+     sg_value / sg_grad  := quadratic_surrogate_t::do_vgrad; quad_terms := one row of m_p2; fit_value / fit_grad := the fit objective (mse)
+     closest_point dmax ts x := closest_grid_point_from_surrogate on the images ts of the grid (dmax = numeric_limits::max())
+     closest_point_f     := its binary64 twin (PrimFloat, bit for bit the code)
+     sg_prop tss ans     := the proposal computed from the inner solver's answer `ans` (None = `critical(!valid())`)
+     spaces_match tss sizes := one list of images per space, as long as the grid                                          *)
+From LN Require Import C13_Surrogate_Defs C13_Surrogate.
+From Coq Require Import Qabs Lia.
+(* Floats is deliberately not imported: Print Assumptions then prints the primitive operations with qualified names *)
+Local Open Scope Z_scope.
+
+(* the model vector has (d+1)(d+2)/2 coefficients and the dimension is recovered from it *)
+Theorem C13_sg_sizes : forall d, 0 <= d ->
+  2 * fit_size d = (d + 1) * (d + 2) /\ dim_of_size (fit_size d) = d /\
+  (forall p : list Q, zlen p = d -> zlen (quad_terms p) = fit_size d).
+Proof.
+  intros d Hd. split; [exact (twice_fit_size d Hd)|]. split; [exact (dim_of_fit_size d Hd)|].
+  intros p Hp. unfold quad_terms, zlen in *. cbn [length]. rewrite app_length, !map_length, Hp, pairs_fit_eq.
+  pose proof (pairs_length d Hd) as L. pose proof (zfrom_length 0 d) as L0. unfold zlen in L, L0. lia.
+Qed.
+Print Assumptions C13_sg_sizes.
+
+(* the three cross-term loops of the source walk the upper triangle row by row, and the running index `k` at (i, j) is
+   pair_index: a bijection between {0 <= i <= j < d} and [d + 1, (d+1)(d+2)/2) *)
+Theorem C13_sg_index_bijection : forall d, 0 <= d ->
+  pairs_fit d = pairs d /\ pairs_grad d = pairs d /\ pairs_value d = pairs d /\
+  NoDup (pairs d) /\ (forall i j, In (i, j) (pairs d) <-> 0 <= i /\ i <= j /\ j < d) /\
+  map snd (number (1 + d) (pairs d)) = zfrom (d + 1) (fit_size d) /\
+  (forall i j k, In ((i, j), k) (number (1 + d) (pairs d)) -> k = pair_index d i j) /\
+  (forall i j, 0 <= i -> i <= j -> j < d -> d + 1 <= pair_index d i j < fit_size d) /\
+  (forall i j i' j', 0 <= i -> i <= j -> j < d -> 0 <= i' -> i' <= j' -> j' < d ->
+     pair_index d i j = pair_index d i' j' -> (i, j) = (i', j')) /\
+  (forall k, d + 1 <= k < fit_size d -> exists i j, 0 <= i /\ i <= j /\ j < d /\ pair_index d i j = k).
+Proof.
+  intros d Hd. destruct (pair_index_spec d Hd) as (H1 & H2 & H3).
+  split; [exact (pairs_fit_eq d)|]. split; [exact (pairs_grad_eq d)|]. split; [exact (pairs_value_eq d)|].
+  split; [exact (pairs_NoDup d)|]. split; [exact (pairs_In d)|]. split; [exact (pairs_positions d Hd)|].
+  split. { intros i j k H. pose proof (pairs_index d 1 i j k Hd H). lia. }
+  split. { intros i j A B C. exact (proj1 (H1 i j A B C)). }
+  split; [exact H2|exact H3].
+Qed.
+Print Assumptions C13_sg_index_bijection.
+
+(* the value walk of quadratic_surrogate_t and the feature walk of the fit agree: value = coefficients . row *)
+Theorem C13_sg_value_features : forall m x, (sg_value m x == qdot m (quad_terms x))%Q.
+Proof. exact sg_value_features. Qed.
+Print Assumptions C13_sg_value_features.
+
+(* the gradient the source returns is the derivative of the value: exact first-order expansion, the remainder is the
+   purely quadratic part, homogeneous of degree two *)
+Theorem C13_sg_gradient : forall m x h, length x = length h ->
+  (sg_value m (qadd x h) == sg_value m x + qdot (sg_grad m x) h + sg_quad m h)%Q /\
+  (forall t, sg_quad m (qscale t h) == t * t * sg_quad m h)%Q.
+Proof. intros m x h Hl. split; [exact (sg_taylor m x h Hl)|intros t; exact (sg_quad_scale m t h)]. Qed.
+Print Assumptions C13_sg_gradient.
+
+(* the fit objective: the gradient is the derivative in the coefficients (remainder: half the sum of squares of the
+   linear forms, never negative) *)
+Theorem C13_fit_gradient : forall rows y c h, length c = length h -> Forall (fun r => length r = length c) rows ->
+  (fit_value rows y (qadd c h) == fit_value rows y c + qdot (fit_grad rows y c) h + fit_quad rows y h)%Q /\
+  (0 <= fit_quad rows y h)%Q.
+Proof. intros rows y c h Hl H. split; [exact (fit_taylor rows y c h Hl H)|exact (fit_quad_nonneg rows y h)]. Qed.
+Print Assumptions C13_fit_gradient.
+
+(* ... and it is convex in the coefficients, so the convexity the source declares for it (mse: yes) is truthful *)
+Theorem C13_fit_convex : fit_declared_convex = true /\
+  forall rows y a b t, length a = length b -> (0 <= t)%Q -> (t <= 1)%Q ->
+  (fit_value rows y (qadd (qscale t a) (qscale (1 - t) b)) <= t * fit_value rows y a + (1 - t) * fit_value rows y b)%Q.
+Proof. split; [reflexivity|exact fit_convex]. Qed.
+Print Assumptions C13_fit_convex.
+
+(* closest_grid_point_from_surrogate: always an index of the grid; when some grid point is closer than dmax it is the
+   first index that minimises |x - t_k| over the images; otherwise index 0 *)
+Theorem C13_closest_point : forall dmax ts x,
+  0 <= closest_point dmax ts x < Z.max 1 (zlen ts) /\
+  ((exists k, (k < length ts)%nat /\ (Qabs (x - nth k ts 0%Q) < dmax)%Q) ->
+   exists k, (k < length ts)%nat /\ closest_point dmax ts x = Z.of_nat k /\
+     (forall j, (j < length ts)%nat -> (Qabs (x - nth k ts 0%Q) <= Qabs (x - nth j ts 0%Q))%Q) /\
+     (forall j, (j < k)%nat -> (Qabs (x - nth k ts 0%Q) < Qabs (x - nth j ts 0%Q))%Q)) /\
+  ((forall k, (k < length ts)%nat -> ~ (Qabs (x - nth k ts 0%Q) < dmax)%Q) -> closest_point dmax ts x = 0).
+Proof.
+  intros dmax ts x. split; [exact (closest_point_range dmax ts x)|].
+  split; [exact (closest_point_argmin dmax ts x)|exact (closest_point_default dmax ts x)].
+Qed.
+Print Assumptions C13_closest_point.
+
+(* linear spaces: to_surrogate maps the range onto [0, 1] strictly increasingly and throws outside; from_surrogate is its
+   inverse there and never leaves the range *)
+Theorem C13_space_linear : forall vmin vmax, (vmin < vmax)%Q ->
+  (forall v, (vmin <= v)%Q /\ (v <= vmax)%Q ->
+     exists s, to_surrogate_lin vmin vmax v = Some s /\ (0 <= s)%Q /\ (s <= 1)%Q /\ (from_surrogate_lin vmin vmax s == v)%Q) /\
+  (forall v, (v < vmin)%Q \/ (vmax < v)%Q -> to_surrogate_lin vmin vmax v = None) /\
+  (forall v w s1 s2, (v < w)%Q -> to_surrogate_lin vmin vmax v = Some s1 -> to_surrogate_lin vmin vmax w = Some s2 -> (s1 < s2)%Q) /\
+  (forall s, (vmin <= from_surrogate_lin vmin vmax s)%Q /\ (from_surrogate_lin vmin vmax s <= vmax)%Q).
+Proof.
+  intros vmin vmax Hw. split; [intros v; exact (proj1 (to_surrogate_lin_spec vmin vmax v Hw))|].
+  split; [intros v; exact (proj2 (to_surrogate_lin_spec vmin vmax v Hw))|].
+  split; [intros v w s1 s2; exact (to_surrogate_lin_mono vmin vmax v w s1 s2 Hw)|].
+  intros s. apply from_surrogate_lin_range. apply Qlt_le_weak. exact Hw.
+Qed.
+Print Assumptions C13_space_linear.
+
+(* EVERY proposal of the surrogate tuner is a grid point, whatever vector the inner solver returned -- exact rationals
+   and the binary64 twin (NaN, infinities and huge values included) *)
+Theorem C13_proposal_in_grid :
+  (forall tss sizes xs, spaces_match tss sizes -> Forall (fun s => 1 <= s) sizes -> InGrid sizes (sg_proposal tss xs)) /\
+  (forall tss sizes xs, spaces_match tss sizes -> Forall (fun s => 1 <= s) sizes -> InGrid sizes (sg_proposal_f tss xs)) /\
+  (forall ts x, 0 <= closest_point_f ts x < Z.max 1 (zlen ts)).
+Proof. exact (conj sg_proposal_in_grid (conj sg_proposal_f_in_grid closest_point_f_range)). Qed.
+Print Assumptions C13_proposal_in_grid.
+
+(* the tuner clauses for the surrogate tuner with the inner solver's answer as the ONLY oracle (no prop_shape premise) *)
+Theorem C13_surrogate_grid_only : forall srt tss ans f cfg,
+  sort_contract srt -> valid_config cfg -> spaces_match tss (c_sizes cfg) ->
+  Forall (InGrid (c_sizes cfg)) (concat (calls_of (optimize_sg srt tss ans f cfg))).
+Proof. exact sg_grid_only. Qed.
+Print Assumptions C13_surrogate_grid_only.
+
+Theorem C13_surrogate_no_repeat : forall srt tss ans f cfg,
+  sort_contract srt -> valid_config cfg -> spaces_match tss (c_sizes cfg) ->
+  NoDup (concat (calls_of (optimize_sg srt tss ans f cfg))).
+Proof. exact sg_no_repeat. Qed.
+Print Assumptions C13_surrogate_no_repeat.
+
+Theorem C13_surrogate_bound_terminates : forall srt tss ans f cfg,
+  sort_contract srt -> valid_config cfg -> spaces_match tss (c_sizes cfg) ->
+  Z.of_nat (length (concat (calls_of (optimize_sg srt tss ans f cfg)))) <= c_max_evals cfg + 3 ^ Z.of_nat (length (c_sizes cfg)) /\
+  (forall st, optimize_sg srt tss ans f cfg <> OutOfFuel st) /\
+  (exists rest, calls_of (optimize_sg srt tss ans f cfg) = [avg_igrid (c_sizes cfg)] :: rest).
+Proof.
+  intros srt tss ans f cfg H1 H2 H3. split; [exact (sg_bound srt tss ans f cfg H1 H2 H3)|].
+  split; [exact (sg_fuel srt tss ans f cfg H1 H2 H3)|exact (sg_first_batch srt tss ans f cfg H1 H2 H3)].
+Qed.
+Print Assumptions C13_surrogate_bound_terminates.
+
+Theorem C13_surrogate_sorted_nonfinite : forall srt tss ans f cfg,
+  sort_contract srt -> valid_config cfg -> spaces_match tss (c_sizes cfg) ->
+  (forall st, optimize_sg srt tss ans f cfg = Finished st ->
+     StronglySorted step_le (st_steps st) /\
+     Permutation (map fst (st_steps st)) (concat (st_calls st)) /\
+     Forall (fun s => f (fst s) = Some (snd s)) (st_steps st) /\
+     exists s0 rest, st_steps st = s0 :: rest /\
+       forall g, In g (concat (st_calls st)) -> exists v, f g = Some v /\ snd s0 <= v) /\
+  (forall g, In g (concat (calls_of (optimize_sg srt tss ans f cfg))) -> f g = None ->
+             exists calls, optimize_sg srt tss ans f cfg = Thrown calls).
+Proof.
+  intros srt tss ans f cfg H1 H2 H3. split; [intros st; exact (sg_sorted_min_first srt tss ans f cfg H1 H2 H3 st)|].
+  exact (proj1 (sg_nonfinite srt tss ans f cfg H1 H2 H3)).
+Qed.
+Print Assumptions C13_surrogate_sorted_nonfinite.
+
+(* the same for the binary64 twin that replays the real runs *)
+Theorem C13_surrogate_binary64 : forall srt (tss : list (list PrimFloat.float)) ans f cfg,
+  sort_contract srt -> valid_config cfg -> spaces_match tss (c_sizes cfg) ->
+  Forall (InGrid (c_sizes cfg)) (concat (calls_of (optimize_sg_f srt tss ans f cfg))) /\
+  NoDup (concat (calls_of (optimize_sg_f srt tss ans f cfg))) /\
+  Z.of_nat (length (concat (calls_of (optimize_sg_f srt tss ans f cfg)))) <= c_max_evals cfg + 3 ^ Z.of_nat (length (c_sizes cfg)) /\
+  (forall st, optimize_sg_f srt tss ans f cfg <> OutOfFuel st) /\
+  (forall g, In g (concat (calls_of (optimize_sg_f srt tss ans f cfg))) -> f g = None ->
+             exists calls, optimize_sg_f srt tss ans f cfg = Thrown calls).
+Proof. exact sgf_tuner. Qed.
+Print Assumptions C13_surrogate_binary64.
+
+(* ---------------- non-vacuity of the extension ---------------- *)
+Example C13_nonvacuous_sizes : fit_size 3 = 10 /\ dim_of_size 10 = 3 /\ pairs 3 = [(0, 0); (0, 1); (0, 2); (1, 1); (1, 2); (2, 2)] /\
+  map snd (number 4 (pairs 3)) = [4; 5; 6; 7; 8; 9] /\ pair_index 3 1 2 = 8 /\ pair_index 3 2 2 = 9 /\
+  quad_terms [2; 3; 5]%Q = [1; 2; 3; 5; 2 * 2; 2 * 3; 2 * 5; 3 * 3; 3 * 5; 5 * 5]%Q.
+Proof. vm_compute. repeat split; reflexivity. Qed.
+
+(* value, gradient and the expansion on a concrete surrogate with d = 3 (coefficient 8 = cross term (1, 2)) *)
+Example C13_nonvacuous_surrogate_value :
+  let m := [1; 0; 0; 0; 0; 0; 0; 0; 2; 0]%Q in
+  (sg_value m [1; 3; 5] == 31)%Q /\ sg_grad m [1; 3; 5]%Q = [0 + 0; 0 + 0 + 2 * 5; 0 + 0 + 2 * 3]%Q /\
+  length [1; 3; 5]%Q = length [1; 1; 1]%Q /\ (sg_quad m [1; 1; 1] == 2)%Q.
+Proof. cbv zeta. split; [vm_compute; reflexivity|]. split; [vm_compute; reflexivity|]. split; [reflexivity|vm_compute; reflexivity]. Qed.
+
+Example C13_nonvacuous_fit :
+  let rows := fit_rows [[1]; [2]]%Q in
+  Forall (fun r => length r = length [0; 0; 0]%Q) rows /\ (fit_value rows [1; 3]%Q [1; 1; 0]%Q == 1 # 2)%Q /\
+  (0 <= 1 # 2)%Q /\ (1 # 2 <= 1)%Q.
+Proof. cbv zeta. split; [repeat constructor|]. split; [vm_compute; reflexivity|]. split; discriminate. Qed.
+
+(* closest point: a tie (the first wins), a far query (argmin is the last), nothing below dmax (index 0) *)
+Example C13_nonvacuous_closest_grid_point :
+  closest_point dbl_max [0; 1 # 2; 1]%Q (1 # 4) = 0 /\ closest_point dbl_max [0; 1 # 2; 1]%Q (3 # 4) = 1 /\
+  closest_point dbl_max [0; 1 # 2; 1]%Q 1000 = 2 /\ closest_point 1 [0; 1 # 2; 1]%Q 1000 = 0 /\
+  (exists k, (k < length [0; 1 # 2; 1]%Q)%nat /\ (Qabs (1000 - nth k [0; 1 # 2; 1] 0) < dbl_max)%Q) /\
+  closest_point_f ex_f_grid ex_f_huge = 0 /\ closest_point_f ex_f_grid ex_f_nan = 0 /\
+  closest_point_f ex_f_grid ex_f_inside = 1.
+Proof.
+  split; [vm_compute; reflexivity|]. split; [vm_compute; reflexivity|]. split; [vm_compute; reflexivity|].
+  split; [vm_compute; reflexivity|]. split; [exists O; split; [cbn; lia|vm_compute; reflexivity]|].
+  split; [vm_compute; reflexivity|]. split; vm_compute; reflexivity.
+Qed.
+
+Example C13_nonvacuous_linear : (1 < 3)%Q /\ to_surrogate_lin 1 3 2 = Some ((2 - 1) / (3 - 1))%Q /\ to_surrogate_lin 1 3 4 = None /\
+  (from_surrogate_lin 1 3 (1 # 2) == 2)%Q /\ (from_surrogate_lin 1 3 7 == 3)%Q.
+Proof. split; [reflexivity|]. split; [reflexivity|]. split; [reflexivity|]. split; vm_compute; reflexivity. Qed.
+
+(* a surrogate run whose proposals come from the inner solver's answers: garbage answers still give grid points *)
+Example C13_nonvacuous_surrogate_run :
+  let cfg := {| c_kind := KSurrogate; c_sizes := [4]; c_max_evals := 10 |} in
+  let tss := [[0; 1 # 3; 2 # 3; 1]%Q] in
+  valid_config cfg /\ spaces_match tss (c_sizes cfg) /\
+  sg_proposal tss [1000000]%Q = [3] /\ sg_proposal tss [-(5)]%Q = [0] /\
+  optimize_sg isort tss (fun _ => Some [1000000]%Q) (fun _ => Some 1) cfg =
+    Finished {| st_steps := [([2], 1); ([0], 1); ([3], 1)]; st_calls := [[[2]]; [[0]]; [[3]]] |} /\
+  (exists st, optimize_sg isort tss (fun _ => None) (fun _ => Some 1) cfg = Aborted st) /\
+  spaces_match [ex_f_grid] [3] /\ sg_proposal_f [ex_f_grid] [ex_f_nan] = [0].
+Proof.
+  cbv zeta. split; [split; [repeat constructor; discriminate|discriminate]|].
+  split; [repeat constructor|]. split; [vm_compute; reflexivity|]. split; [vm_compute; reflexivity|].
+  split; [vm_compute; reflexivity|]. split; [eexists; vm_compute; reflexivity|].
+  split; [repeat constructor|vm_compute; reflexivity].
+Qed.
